@@ -602,4 +602,58 @@ theorem valueIs_functional (j : J) (v w : Val) (ht : v.tag = w.tag)
   | .f64 _, .i64 _, ht, _, _ | .f64 _, .u64 _, ht, _, _ | .f64 _, .str _, ht, _, _
   | .str _, .i64 _, ht, _, _ | .str _, .u64 _, ht, _, _ | .str _, .f64 _, ht, _, _ => exact absurd ht (by intro hh; cases hh)
 
+
+theorem mapM_option_length {α β : Type} (f : α → Option β) :
+    ∀ (l : List α) (r : List β), l.mapM f = some r → r.length = l.length := by
+  intro l
+  induction l with
+  | nil => intro r h; simp at h; subst h; rfl
+  | cons a as ih =>
+    intro r h
+    simp only [List.mapM_cons] at h
+    cases hfa : f a with
+    | none => simp [hfa] at h
+    | some b =>
+      cases has : as.mapM f with
+      | none => simp [hfa, has] at h
+      | some bs =>
+        simp [hfa, has] at h
+        subst h
+        simp [ih bs has]
+
+/-- an accepted entry list has exactly as many entries as the model's index -/
+theorem checkEntries_length (name : String) (fi mi : List (Nat × Nat)) :
+    ∀ (fuel i : Nat) (js : List J) (es : FIdx),
+      checkEntries name fi mi fuel i js es = .ok () → js.length = es.length := by
+  intro fuel
+  induction fuel with
+  | zero => intro i js es h; simp [checkEntries] at h
+  | succ fuel ih =>
+    intro i js es h
+    match js, es, h with
+    | [], [], _ => rfl
+    | [], _ :: _, h => simp [checkEntries] at h
+    | _ :: _, [], h => simp [checkEntries] at h
+    | j :: js, (x, o) :: es, h =>
+      simp only [checkEntries] at h
+      split at h
+      · simp at h
+      · rename_i fe hfe
+        split at h
+        · simp at h
+        · rename_i hlen
+          split at h
+          · simp at h
+          · split at h
+            · simp at h
+            · split at h
+              · simp at h
+              · have hrec := ih _ _ _ h
+                have h1 := mapM_option_length _ _ _ hfe
+                simp only [bne_iff_ne, ne_eq, Decidable.not_not] at hlen
+                have hrun : (List.takeWhile (fun e => e.1 == x) ((x, o) :: es)).length ≤ ((x, o) :: es).length :=
+                  (List.takeWhile_sublist _).length_le
+                simp only [List.length_drop, List.length_take] at hrec h1
+                omega
+
 end Sod.Codec
